@@ -23,7 +23,7 @@ from ..rundir import GEN as _GEN  # noqa: E402
 EXTRA_PROOF_FILES = ["generated/Facts_coercers.v"]
 ASSUMPTIONS = [
     "the stdlib constructors (Decimal, UUID, date/datetime.fromisoformat) are oracles: each case carries the real result of the real constructor",
-    "round-trip of canonical text: proved for UUIDs and dates against the concrete text model of Model/Text.v (which is compared with the stdlib on every run); for Decimal / datetime it is a stdlib property that is sampled, not proved",
+    "round-trip of canonical text: proved for UUIDs and dates against the concrete text model of Model/Text.v (which is compared with the stdlib on every run); UUIDs, dates and datetimes with whole-minute offsets are covered; for Decimal it is a stdlib property that is sampled, not proved",
     "treatment of subclasses of the *source* types (str subclasses, bool as int) is outside the claim",
 ]
 TRUSTED_EXTRA = ["fact translator harness/facts/coercers.py (python ast) regenerates coq/generated/Facts_coercers.v from /repo on every run"]
@@ -217,7 +217,8 @@ def roundtrip(rng: random.Random, tier: str) -> List[dict]:
 def text_model(rng: random.Random, tier: str) -> List[dict]:
     """Model/Text.v against CPython: str(UUID) = uuid_str, UUID(s) against uuid_parse (sound everywhere, exact on
     texts made of hex digits, dashes and braces), Decimal(int) = dec_of_int, date.isoformat = date_iso,
-    date.toordinal = ymd2ord, date.fromisoformat against date_parse (sound everywhere).  The round-trip theorems
+    date.toordinal = ymd2ord, date.fromisoformat against date_parse (sound everywhere), datetime.isoformat =
+    datetime_iso, the value = dt_us, datetime.fromisoformat against datetime_parse (sound everywhere).  The round-trip theorems
     C16_uuid_roundtrip / C16_date_roundtrip are about these definitions; this family is what ties them to the stdlib."""
     from concurrent.futures import ThreadPoolExecutor
     from ..corr import GEN, HEADER, run_coq_file
@@ -300,6 +301,67 @@ def text_model(rng: random.Random, tier: str) -> List[dict]:
         except ValueError:
             py = None
         lines.append((f"(date_agree {zl(s_)} {'None' if py is None else '(Some (' + str(py) + '))'})", "true", f"date.fromisoformat({s_!r}) -> ordinal {py!r}"))
+    # datetimes: isoformat against datetime_iso, the value against dt_us, fromisoformat against datetime_parse
+    def _dt_fields(x):
+        off = x.utcoffset()
+        return f"{x.year} {x.month} {x.day} {x.hour} {x.minute} {x.second} {x.microsecond}", ("None" if off is None else f"(Some ({int(off.total_seconds())}))")
+
+    def _dt_val(x):
+        t_ = from_py(x, None)
+        return t_[1], (None if t_[2] is None else t_[2].x)
+    tzs = [None, timezone.utc, timezone(timedelta(hours=-5, minutes=-30)), timezone(timedelta(hours=14)), timezone(timedelta(hours=-12)),
+           timezone(timedelta(minutes=1)), timezone(timedelta(minutes=-1)), timezone(timedelta(hours=23, minutes=59)), timezone(timedelta(hours=-23, minutes=-59))]
+    dtl = [datetime.min, datetime.max, datetime(2020, 1, 2, 3, 4, 5, 678901), datetime(2020, 1, 2, 3, 4, 5), datetime(2020, 2, 29, 23, 59, 59, 999999),
+           datetime(1, 1, 1, 0, 0, 0, 1), datetime(9999, 12, 31, 0, 0, 0), datetime(2000, 2, 29, 12, 0, 0, 100000), datetime(1900, 3, 1, 0, 0, 1, 10)]
+    dtl += [x.replace(tzinfo=z) for x in dtl[2:6] for z in tzs[1:]]
+    for _ in range(n_d):
+        x = datetime.min + timedelta(microseconds=rng.randrange(0, 315537897599999999))
+        if rng.random() < 0.4:
+            x = x.replace(microsecond=0)
+        z = rng.choice(tzs + [timezone(timedelta(minutes=rng.randrange(-1439, 1440)))])
+        dtl.append(x.replace(tzinfo=z))
+    for x in dtl:
+        fl, tzs_ = _dt_fields(x)
+        us_, _ = _dt_val(x)
+        lines.append((f"(datetime_iso {fl} {tzs_})", zl(x.isoformat()), f"{x!r}.isoformat()"))
+        lines.append((f"(dt_us {fl})", f"({us_})", f"wall-clock microseconds of {x!r}"))
+    talpha = "0123456789-:T.+"
+    tstrs: List[str] = ["2020-01-02T03:04:05", "2020-01-02 03:04:05", "2020-01-02t03:04:05", "2020-01-02T03:04", "2020-01-02T03", "2020-01-02", "2020-01-02T03:04:05.5",
+                        "2020-01-02T03:04:05.000000", "2020-01-02T03:04:05.1234567", "2020-01-02T03:04:05,123456", "2020-01-02T24:00:00", "2020-01-02T23:60:00",
+                        "2020-01-02T23:59:60", "2020-01-02T03:04:05Z", "2020-01-02T03:04:05+00:00", "2020-01-02T03:04:05-00:00", "2020-01-02T03:04:05+24:00",
+                        "2020-01-02T03:04:05+23:59", "2020-01-02T03:04:05+01:60", "2020-01-02T03:04:05+0100", "2020-01-02T03:04:05+01", "2020-01-02T03:04:05+01:00:30",
+                        "2020-01-02T03:04:05.000007-05:30", "20200102T030405", "2020-02-30T00:00:00", "0000-01-01T00:00:00", "2020-01-02T03:04:5", "2020-01-02T3:04:05",
+                        "2020-01-02T03:04:05 ", " 2020-01-02T03:04:05", "2020-01-02T03:04:05.\u0661\u0662\u0663456", "2020-01-02T03:04:05+\u0660\u0661:00", ""]
+    for x in dtl[: max(25, n_d // 2)]:
+        s_ = x.isoformat()
+        tstrs += [s_, s_.replace("T", " "), s_[:-1], s_ + "0"]
+        for _ in range(3):
+            t = list(s_)
+            for _ in range(rng.randrange(1, 3)):
+                k = rng.randrange(0, len(t) + 1)
+                op = rng.randrange(3)
+                pool = talpha if rng.random() < 0.8 else hostile
+                if op == 0 and t:
+                    t[min(k, len(t) - 1)] = rng.choice(pool)
+                elif op == 1:
+                    t.insert(k, rng.choice(pool))
+                elif t:
+                    del t[min(k, len(t) - 1)]
+            tstrs.append("".join(t))
+    n_tsome = 0
+    for s_ in tstrs:
+        try:
+            px = datetime.fromisoformat(s_)
+            off = px.utcoffset()
+            if off is not None and off.total_seconds() != int(off.total_seconds()):
+                continue                                       # sub-second offsets are outside the model's value space
+            us_, tz_ = _dt_val(px)
+            py = f"(Some (({us_}), {'None' if tz_ is None else '(Some (' + str(tz_) + '))'}))"
+            n_tsome += 1
+        except ValueError:
+            py = "None"
+        lines.append((f"(datetime_agree {zl(s_)} {py})", "true", f"datetime.fromisoformat({s_!r})"))
+    TEXT_STATS.update({"datetimes_printed_and_counted": len(dtl), "datetime_texts_parsed": len(tstrs), "of_which_accepted_by_datetime_fromisoformat": n_tsome})
     TEXT_STATS.update({"dates_printed_and_counted": len(dts_), "date_texts_parsed": len(dstrs), "of_which_accepted_by_fromisoformat": n_dsome})
     os.makedirs(GEN, exist_ok=True)
     hdr = HEADER.replace("Corr.Check.", "Corr.Check Model.Text.")
